@@ -627,7 +627,7 @@ func (x *Explorer) next() bool {
 				x.FDConfirmed++
 				r2, _ := x.S.Check(ls, x.newGlob, false)
 				x.newGlob = nil
-				if r2 != res {
+				if (r2 == "sat" || r2 == "unsat") && r2 != res {
 					panic(engineBug(fmt.Sprintf("finite-domain solve says %s, the solver %s", res, r2)))
 				}
 			}
